@@ -66,7 +66,9 @@ func frameSites(p *Prog) []frameSite {
 					cv = rv
 				}
 				if _, _, okc := counterClaim(cv, "nextFrameNum"); !okc {
-					return
+					if _, _, _, okp := counterClaimPoly(cv, "nextFrameNum", NewPolyCtx(fn)); !okp {
+						return
+					}
 				}
 			}
 			var raw ssa.Value
@@ -260,8 +262,62 @@ func counterClaim(v ssa.Value, field string) (*ssa.Call, ssa.Value, bool) {
 	return call, adv, true
 }
 
+// counterClaimPoly: the general form of counterClaim.  v is (a result of) a call of a module helper
+// that returns counter + X and, on every path, stores counter + Y into the counter field, X and Y
+// being polynomials over the helper's inputs; they are returned in the caller's terms.
+func counterClaimPoly(v ssa.Value, field string, cc *PolyCtx) (call *ssa.Call, X, Y Poly, ok bool) {
+	v = stripConv(v)
+	idx := 0
+	if ex, isEx := v.(*ssa.Extract); isEx {
+		v, idx = ex.Tuple, ex.Index
+	}
+	call, isCall := v.(*ssa.Call)
+	if !isCall {
+		return nil, nil, nil, false
+	}
+	h := call.Call.StaticCallee()
+	if !isModuleFn(h) || len(h.Params) != len(call.Call.Args) || len(h.Blocks) == 0 {
+		return nil, nil, nil, false
+	}
+	var rets []*ssa.Return
+	Instrs(h, func(in ssa.Instruction) {
+		if rt, isRt := in.(*ssa.Return); isRt && rt.Block() != h.Recover {
+			rets = append(rets, rt)
+		}
+	})
+	if len(rets) != 1 || idx >= len(rets[0].Results) {
+		return nil, nil, nil, false
+	}
+	ch := NewPolyCtx(h)
+	ch.G = cc.G
+	R := ch.Of(returnedValue(rets[0], idx))
+	sym, has := symWithSuffix(R, "."+field)
+	if !has || R[sym] != 1 || strings.Contains(sym, "{") {
+		return nil, nil, nil, false
+	}
+	var cst *ssa.Store
+	for _, st := range StoresTo(h, "", field) {
+		cst = st
+	}
+	if cst == nil {
+		return nil, nil, nil, false
+	}
+	isStore := func(in ssa.Instruction) bool { return in == ssa.Instruction(cst) }
+	if len(ReachAvoiding(h, nil, isStore, isReturn)) > 0 {
+		return nil, nil, nil, false
+	}
+	S := ch.Of(cst.Val)
+	if S[sym] != 1 {
+		return nil, nil, nil, false
+	}
+	trPoly, _ := callTranslator(h, call, cc, ch)
+	return call, trPoly(R.Sub(polySym(sym))), trPoly(S.Sub(polySym(sym))), true
+}
+
 // frameRule checks one source; rule is the rule id to report under.
-func frameRule(p *Prog, r *Report, rule string, want func(fs frameSite) bool) int {
+// contiguous: the source delivers every frame it numbers (lost ones are filled in), so a block is
+// stamped at the bare counter and the counter advances by exactly the block length.
+func frameRule(p *Prog, r *Report, rule string, contiguous bool, want func(fs frameSite) bool) int {
 	n := 0
 	for _, fs := range frameSites(p) {
 		if !want(fs) {
@@ -296,6 +352,32 @@ func frameRule(p *Prog, r *Report, rule string, want func(fs frameSite) bool) in
 				r.Fn(FuncName(call.Call.StaticCallee()))
 				r.Check(okB, rule, name+": counter advance minus stamp offset is exactly the block length", p.InstrPos(call), "claimed frames = "+B.String(),
 					"the counter advances by "+B.String()+" while the block is stamped at the counter: that is not the block length, so later blocks overlap earlier ones or skip")
+				oncePerBlock := !InLoop(call) || (fs.stampFn == fs.fn && InstrDominates(call, fs.stamp) && !InLoopWith(call, fs.stamp))
+				r.Check(oncePerBlock, rule, name+": the counter advances once per block, after all channels are stamped", p.InstrPos(call), "one claim per block, outside the per-channel loop", "the counter is advanced inside the per-channel loop: channels of one block get different frame numbers")
+				continue
+			}
+			cpc2 := NewPolyCtx(fs.fn)
+			cpc2.G = true
+			if call, Xp, Yp, okp := counterClaimPoly(claimV, "nextFrameNum", cpc2); okp && call.Parent() == fs.fn {
+				B := Yp.Sub(Xp)
+				okB := false
+				if len(B) == 1 {
+					for sym, c := range B {
+						if c == 1 && strings.HasPrefix(sym, "len(") {
+							okB = true
+						}
+						if mk, isMk := fs.raw.(*ssa.MakeSlice); isMk && c == 1 && cpc2.Of(mk.Len).Equal(B) {
+							okB = true
+						}
+					}
+				}
+				r.Fn(FuncName(call.Call.StaticCallee()))
+				r.Check(okB, rule, name+": counter advance minus stamp offset is exactly the block length", p.InstrPos(call), "advance - offset = "+B.String(),
+					"the counter advances by "+Yp.String()+" while the block is stamped at counter + "+Xp.String()+": the difference "+B.String()+" is not the block length, so later blocks overlap earlier ones or skip")
+				if contiguous {
+					r.Check(Xp.IsZero(), rule, name+": blocks are numbered contiguously (stamped at the bare counter)", p.InstrPos(call), "stamp offset 0",
+						"the block is stamped at counter + "+Xp.String()+", and the counter moves on by that much more than the block holds: this source fills in the frames it lost, so they are already inside the block; every block that contains filler then starts later than the previous one ended, and all later frame numbers run ahead of the samples delivered")
+				}
 				oncePerBlock := !InLoop(call) || (fs.stampFn == fs.fn && InstrDominates(call, fs.stamp) && !InLoopWith(call, fs.stamp))
 				r.Check(oncePerBlock, rule, name+": the counter advances once per block, after all channels are stamped", p.InstrPos(call), "one claim per block, outside the per-channel loop", "the counter is advanced inside the per-channel loop: channels of one block get different frame numbers")
 				continue
@@ -373,6 +455,10 @@ func frameRule(p *Prog, r *Report, rule string, want func(fs frameSite) bool) in
 					}
 				}
 			}
+		}
+		if contiguous {
+			r.Check(X.IsZero(), rule, name+": blocks are numbered contiguously (stamped at the bare counter)", p.InstrPos(fs.stamp), "stamp offset 0",
+				"the block is stamped at counter + "+X.String()+": this source fills in the frames it lost, so they are already inside the block; a block stamped past the counter starts later than the previous one ended, and all later frame numbers run ahead of the samples delivered")
 		}
 		r.Check(okB, rule, name+": counter advance minus stamp offset is exactly the block length", p.InstrPos(cst), "advance - offset = "+desc,
 			"the counter advances by "+Y.String()+" while the block is stamped at counter + "+X.String()+": the difference "+desc+" is not the block length, so after such a block the frame numbers of later blocks overlap earlier ones (go backwards) or skip")
@@ -497,7 +583,7 @@ func runC03(p *Prog, r *Report) {
 	r.MinInstances["C03.R5"] = 4
 	r.MinInstances["C03.R6"] = 3
 	r.MinInstances["C03.R7"] = 1
-	frameRule(p, r, "C03.R1", func(fs frameSite) bool { return strings.Contains(FuncName(fs.fn), "AbacoSource") })
+	frameRule(p, r, "C03.R1", true, func(fs frameSite) bool { return strings.Contains(FuncName(fs.fn), "AbacoSource") })
 	c03R2R4R5(p, r)
 	c03R3(p, r)
 	c03R6R7(p, r)
